@@ -38,28 +38,44 @@ fn spline_bezier_endpoints_exact() {
 }
 
 // @ob props=C17 tier=quick kind=P cfg=core-std timeout=1800
-// @fn smoothstep ; smootherstep ; step
-// @clause smoothstep and smootherstep return exactly 0 for t <= 0 and exactly 1 for t >= 1, and a value in [0, 1] up to rounding (1e-5) for every t in between; never NaN for non-NaN input
+// @fn smoothstep ; step
+// @clause smoothstep returns exactly 0 for t <= 0 and exactly 1 for t >= 1, and a value in [0, 1] up to rounding (1e-5) for every t in between; never NaN for non-NaN input
 #[cfg(not(verif_skip_spline_smoothstep_range))]
 #[kani::proof]
 fn spline_smoothstep_range() {
     let t: F = kani::any();
     kani::assume(!t.is_nan());
-    let (a, b) = (smoothstep(t), smootherstep(t));
+    let a = smoothstep(t);
     kani::cover!(t > 0.25 && t < 0.75);
     if t <= 0.0 {
-        assert!(a == 0.0 && b == 0.0);
+        assert!(a == 0.0);
     } else if t >= 1.0 {
-        assert!(a == 1.0 && b == 1.0);
+        assert!(a == 1.0);
     } else {
-        // "up to rounding": the Horner form overshoots 1 by 1.07e-6 at t = 0.9996858 (replayed natively); the property
-        // states no bound for these helpers, so the clause only pins the range to a few ulps
         assert!(a >= -1e-5 && a <= 1.0 + 1e-5);
-        assert!(b >= -1e-5 && b <= 1.0 + 1e-5);
     }
 }
 
 // @ob props=C17 tier=quick kind=P cfg=core-std timeout=1800
+// @fn smootherstep ; step
+// @clause smootherstep returns exactly 0 for t <= 0 and exactly 1 for t >= 1, and a value in [0, 1] up to rounding (1e-5; the Horner form overshoots 1 by 1.07e-6 at t = 0.9996858) for every t in between
+#[cfg(not(verif_skip_spline_smootherstep_range))]
+#[kani::proof]
+fn spline_smootherstep_range() {
+    let t: F = kani::any();
+    kani::assume(!t.is_nan());
+    let b = smootherstep(t);
+    kani::cover!(t > 0.25 && t < 0.75);
+    if t <= 0.0 {
+        assert!(b == 0.0);
+    } else if t >= 1.0 {
+        assert!(b == 1.0);
+    } else {
+        assert!(b >= -1e-5 && b <= 1.0 + 1e-5);
+    }
+}
+
+// @ob props=C17 tier=thorough kind=P cfg=core-std timeout=5400
 // @fn CubicBezier::tangent
 // @clause the tangent is clamped: for every t <= 0 (and NaN-free finite control points) it equals the tangent at 0 and for every t >= 1 the tangent at 1, bit for bit; no t makes it panic
 #[cfg(not(verif_skip_spline_tangent_clamps))]
